@@ -122,6 +122,10 @@ crash_points(const struct cfg *c, int op, size_t off, size_t n)
         vh_fail("fault-free-op-fails", cfgkey(c, op), "size=%zu rc=%d", c->size, rc);
         return;
     }
+    if (ps_log_overflow) {
+        vh_broken("access log overflow (size=%zu aux=%zu)", c->size, c->auxsize);
+        return;
+    }
     /* copy the write log (judge_image reuses the medium and its log) */
     static struct ps_access wl[PS_MAXLOG];
     static unsigned char wd[sizeof ps_wdata];
@@ -341,11 +345,46 @@ u_big(uint64_t idx, void *arg)
     vh_countf("large data size %zu", c.size);
 }
 
+/* large data sizes with no auxiliary buffer or a tiny one: the checksum over the medium takes tens of thousands of
+ * accesses (only the writes are recorded; crash points of stores, no fault injection) */
+static void
+u_manyreads(uint64_t idx, void *arg)
+{
+    (void)arg;
+    static const struct { size_t size, aux; } v[] = { { 40000, 0 }, { 40000, 1 }, { 65539, 0 }, { 65539, 2 }, { 33000, 0 }, { 70000, 2 } };
+    struct cfg c;
+    c.size = v[idx % 6].size;
+    c.ck = (int)((idx / 6) % NCK);
+    c.place = 7u;
+    c.with_aux = v[idx % 6].aux > 0;
+    c.auxsize = v[idx % 6].aux;
+    ncase = 0;
+    img(imgA, c.size, 1);
+    img(imgB, c.size, 2);
+    /* the second image differs from the first only towards the end in every second unit */
+    if ((idx / 6) & 1)
+        memcpy(imgB, imgA, c.size - 3000);
+    ps_log_reads = 0;
+    ps_log_overflow = 0;
+    VH_CASE4(c.size, c.place, c.ck, c.auxsize);
+    crash_points(&c, OP_STORE, 0, c.size);
+    size_t off = c.size - 5000, n = 3000;
+    img(part, n, 78);
+    crash_points(&c, OP_STORE_PART, off, n);
+    ps_log_reads = 1;
+    *vh_ncases += ncase;
+    vh_sig(0x11c00000ull ^ idx);
+    VH_COUNT("large data size read in tens of thousands of accesses");
+}
+
 void
 harness_run(void)
 {
     for (uint64_t i = 0; i < 18; i++)
         vh_unit("big", i, u_big, NULL);
+    for (uint64_t i = 0; i < (vh_tier ? 6u * NCK * 2 : 12u); i++)
+        vh_unit("manyreads", i, u_manyreads, NULL);
+    vh_require("large data size read in tens of thousands of accesses");
     vh_require("large data size 65536");
     static const size_t quick_sizes[] = { 1, 2, 3, 5, 8, 9, 16, 17, 33 };
     static const size_t thorough_sizes[] = { 1, 2, 3, 4, 5, 6, 7, 8, 9, 12, 15, 16, 17, 24, 31, 32, 33, 40, 64, 65, 100, 130 };
